@@ -1,9 +1,11 @@
 package harness
 
 import (
+	"encoding/json"
 	"fmt"
 	"os"
 	"regexp"
+	"strconv"
 	"strings"
 	"testing"
 
@@ -40,6 +42,21 @@ func genAnyWorld(t *rapid.T) *World {
 		w = GenWorld(t, GenCfg{Admin: true, NoNamedRisk: true})
 	default:
 		w = GenIngressWorld(t, true)
+	}
+	// now and then a namespace is called like a kubectl resource type or short name (a team called "ds", a namespace
+	// "jobs"): a consistent rename of one namespace of the world, everywhere it is referred to
+	if rapid.IntRange(0, 7).Draw(t, "anyoddns") == 0 {
+		var cands []string
+		for _, n := range w.Namespaces {
+			if n.Name != "default" {
+				cands = append(cands, n.Name)
+			}
+		}
+		if len(cands) > 0 {
+			from := cands[rapid.IntRange(0, len(cands)-1).Draw(t, "anyoddnsfrom")]
+			to := rapid.SampledFrom([]string{"ds", "sts", "deploy", "po", "rs", "jobs", "pods", "cj", "deployment", "svc", "all"}).Draw(t, "anyoddnsto")
+			w = renameNamespace(w, from, to)
+		}
 	}
 	// now and then a real workload carries the name the tool reserves for its fake Ingress source
 	if len(w.Workloads) > 0 && rapid.IntRange(0, 9).Draw(t, "anyreserved") == 0 {
@@ -249,3 +266,22 @@ func checkFocus(cc *C16Case, focus, dir string, base *ListRes, st *VStats) *VFai
 func init() { vRegister("C16", checkC16) }
 
 func TestC16(t *testing.T) { vRunProp(t, "C16", genC16, checkC16) }
+
+// renameNamespace: every reference to a namespace is the exact JSON string of its name (Ns fields, the values of the
+// kubernetes.io/metadata.name label in selectors), so renaming is a replacement of that quoted string in the encoding.
+func renameNamespace(w *World, from, to string) *World {
+	for _, n := range w.Namespaces {
+		if n.Name == to {
+			return w
+		}
+	}
+	b, err := json.Marshal(w)
+	if err != nil {
+		panic(err)
+	}
+	out := &World{}
+	if err := json.Unmarshal([]byte(strings.ReplaceAll(string(b), strconv.Quote(from), strconv.Quote(to))), out); err != nil {
+		panic(err)
+	}
+	return out
+}
